@@ -605,3 +605,47 @@ def normalise_idioms(tree) -> int:
                 else:
                     i += 1
     return n
+
+
+_RE_METHODS = {"match", "search", "fullmatch", "split", "sub", "subn", "findall", "finditer"}
+
+
+def inline_compiled_regexes(tree) -> int:
+    """NAME = re.compile(P[, F])  (module / class / function level, bound once)  and  NAME.match(s)  ->  re.match(P, s[, flags=F]).
+    A compiled pattern's methods are the module functions with the pattern (and flags) fixed."""
+    comp = {}
+    stores = {}
+    for n in ast.walk(tree):
+        if isinstance(n, ast.Name) and isinstance(n.ctx, ast.Store):
+            stores[n.id] = stores.get(n.id, 0) + 1
+    for n in ast.walk(tree):
+        if isinstance(n, ast.Assign) and len(n.targets) == 1 and isinstance(n.targets[0], ast.Name) and isinstance(n.value, ast.Call):
+            f = n.value.func
+            if isinstance(f, ast.Attribute) and f.attr == "compile" and isinstance(f.value, ast.Name) and f.value.id == "re" and n.value.args and stores.get(n.targets[0].id) == 1:
+                flags = n.value.args[1] if len(n.value.args) > 1 else next((k.value for k in n.value.keywords if k.arg == "flags"), None)
+                comp[n.targets[0].id] = (n.value.args[0], flags)
+    if not comp:
+        return 0
+    cnt = 0
+
+    class T(ast.NodeTransformer):
+        def visit_Call(self, c):
+            nonlocal cnt
+            self.generic_visit(c)
+            f = c.func
+            if isinstance(f, ast.Attribute) and f.attr in _RE_METHODS:
+                recv = f.value
+                name = recv.id if isinstance(recv, ast.Name) else recv.attr if isinstance(recv, ast.Attribute) and isinstance(recv.value, ast.Name) else None
+                if name in comp and not c.keywords and 1 <= len(c.args) <= (2 if f.attr in ("sub", "subn", "split") else 1):
+                    pat, flags = comp[name]
+                    new = ast.Call(
+                        func=ast.Attribute(value=ast.Name(id="re", ctx=ast.Load()), attr=f.attr, ctx=ast.Load()),
+                        args=[copy.deepcopy(pat), *c.args],
+                        keywords=[ast.keyword(arg="flags", value=copy.deepcopy(flags))] if flags is not None else [],
+                    )
+                    cnt += 1
+                    return ast.fix_missing_locations(ast.copy_location(new, c))
+            return c
+
+    T().visit(tree)
+    return cnt
